@@ -11,7 +11,43 @@ import z3
 from . import prove, replay
 
 
-def sample_models(pc, k, seed):
+def to_int_args(terms, limit=200):
+    """Arguments of every floor/round (to_int) in the given terms whose value is not an integer by
+    construction: the places where binary floating point and the engine's real arithmetic may legitimately
+    fall on different sides of a discontinuity."""
+    seen, out, stack = set(), [], [t for t in terms if z3.is_expr(t)]
+    while stack and len(out) < limit:
+        t = stack.pop()
+        if t.get_id() in seen:
+            continue
+        seen.add(t.get_id())
+        if z3.is_quantifier(t):
+            continue
+        if z3.is_app(t):
+            if t.decl().kind() == z3.Z3_OP_TO_INT and not z3.is_rational_value(t.arg(0)):
+                out.append(t.arg(0))
+            stack.extend(t.children())
+    return out
+
+
+def near_boundary(m, args, eps=1e-6):
+    for a in args:
+        try:
+            v = m.eval(a, model_completion=True)
+            if z3.is_rational_value(v):
+                x = v.numerator_as_long() / v.denominator_as_long()
+            elif z3.is_algebraic_value(v):
+                x = float(v.approx(12).as_fraction())
+            else:
+                continue
+        except Exception:
+            continue
+        if abs(x - round(x)) < eps:
+            return True
+    return False
+
+
+def sample_models(pc, k, seed, away=()):
     out = []
     s = z3.Solver()
     s.set('timeout', 5000)
@@ -20,6 +56,12 @@ def sample_models(pc, k, seed):
         s.add(p)
     if s.check() != z3.sat:
         return out
+    # prefer samples whose floor/round arguments are well inside a cell (fractional part in [0.2, 0.8])
+    s.push()
+    for a in list(away)[:12]:
+        s.add(a - z3.ToReal(z3.ToInt(a)) >= z3.RealVal('1/5'), a - z3.ToReal(z3.ToInt(a)) <= z3.RealVal('4/5'))
+    if s.check() != z3.sat:
+        s.pop()
     consts = None
     for B in (4, 9):
         for _ in range(k):
@@ -59,7 +101,17 @@ def crosscheck_function(world, contract, per_path=2, seed=0, max_paths=60):
             for w in (ob.info.get('witness') or {}).values():
                 pc.append(z3.Not(w))
             break
-        for m in sample_models(pc, per_path, seed):
+        terms = list(pr.pc)
+        for ob in pr.obligations:
+            terms.append(ob.formula)
+        cuts = to_int_args(terms)
+        for m in sample_models(pc, per_path, seed, away=cuts):
+            if near_boundary(m, cuts):
+                # an input on a floor/round discontinuity: float and real arithmetic may differ there
+                # (assumption "machine arithmetic treated as mathematical"); not a semantic disagreement
+                stats['skipped'] += 1
+                stats['float_boundary'] = stats.get('float_boundary', 0) + 1
+                continue
             r = replay.replay_with_model(world, contract, pr.replay_state, pr.pc, m)
             stats['samples'] += 1
             if r.get('status') == 'not-confirmed':
